@@ -25,11 +25,13 @@ where
 {
     let path = path.as_ref().to_path_buf();
     let format = Format::from_path(&path)?;
-    let source = read_config(&path)?;
-    #[cfg(feature = "verif_hooks")]
-    crate::verif::sync_point("init_file.looked", 0);
+    // The modification time is taken before the text is read: a change that lands
+    // between the two is then picked up by the first poll instead of never.
     // An Err here could come because mtime isn't available, so don't bail
     let modified = fs::metadata(&path).and_then(|m| m.modified()).ok();
+    #[cfg(feature = "verif_hooks")]
+    crate::verif::sync_point("init_file.looked", 0);
+    let source = read_config(&path)?;
     let config = format.parse(&source)?;
 
     let refresh_rate = config.refresh_rate();
